@@ -84,10 +84,6 @@ theorem unpackListResponse_length (b : List Nat) (h : ListResponse) (hh : unpack
 
 /-! ### Reply classes that reach a panic site -/
 
-/-- P2 cannot fire on this message: wrapping build, or mailbox length field at least 3. -/
-def SegLenOk (cfg : Cfg) (m : List Nat) : Prop :=
-  cfg.mode = .checked → SEGMENT_HEADER_LEN ≤ rd16 (image cfg.rmbx m)
-
 /-- P3/P4 cannot fire on this message: length field at least 8 and the announced data present even after the
     list-type word (2 bytes more than a continuation fragment needs: slightly conservative). -/
 def InfoLenOk (cfg : Cfg) (m : List Nat) : Prop :=
@@ -207,23 +203,12 @@ theorem mwr_ok {σ ρ : Type} (P : DevInv σ) (w : World σ) (cfg : Cfg) (req : 
 
 /-! ### Entry points: reads -/
 
-/-- The read-side message class: P2 cannot fire. -/
-def ReadOk (cfg : Cfg) (m : List Nat) : Prop := SegLenOk cfg m
-
 theorem mailboxCounter_outq {σ : Type} (s : St σ) : (mailboxCounter s).2.outq = s.outq := rfl
 
 theorem mailboxCounter_good {σ : Type} (P : DevInv σ) (s : St σ) (hs : QGood P s) :
     QGood P (mailboxCounter s).2 := hs
 
-theorem subU16_noPanic (m : Mode) (a b : Nat) (h : m = .checked → b ≤ a) : Res.isPanic (subU16 m a b) = false := by
-  unfold subU16
-  split
-  · rfl
-  · cases m with
-    | checked => exact absurd (h rfl) ‹_›
-    | wrapping => rfl
-
-theorem segLoop_safe {σ : Type} (w : World σ) (cfg : Cfg) (P : DevInv σ) (hP : ∀ m, P.msg m → ReadOk cfg m) (hw : WGood P w) :
+theorem segLoop_safe {σ : Type} (w : World σ) (cfg : Cfg) (P : DevInv σ) (hw : WGood P w) :
     ∀ (fuel : Nat) (toggle : Bool) (buf : List Nat) (total : Nat) (s : St σ), QGood P s →
       Safe P (segLoop w cfg fuel toggle buf total s) := by
   intro fuel
@@ -235,10 +220,8 @@ theorem segLoop_safe {σ : Type} (w : World σ) (cfg : Cfg) (P : DevInv σ) (hP 
     dsimp only
     have hsafe := mwr_safe P w cfg (segmentRequest (mailboxCounter s).1 toggle) unpackSdoSegmented
       (fun _ _ => true) (mailboxCounter s).2 hw hs unpackSdoSegmented_noPanic
-    have hok := mwr_ok P w cfg (segmentRequest (mailboxCounter s).1 toggle) unpackSdoSegmented
-      (fun _ _ => true) (mailboxCounter s).2 hw hs
     generalize mailboxWriteRead w cfg (segmentRequest (mailboxCounter s).1 toggle) unpackSdoSegmented
-      (fun _ _ => true) (mailboxCounter s).2 = r at hsafe hok
+      (fun _ _ => true) (mailboxCounter s).2 = r at hsafe
     obtain ⟨r1, s'⟩ := r
     obtain ⟨hnp, hq⟩ := hsafe
     cases r1 with
@@ -246,22 +229,13 @@ theorem segLoop_safe {σ : Type} (w : World σ) (cfg : Cfg) (P : DevInv σ) (hP 
     | panic why => simp at hnp
     | ok hd =>
       obtain ⟨h, data⟩ := hd
-      obtain ⟨m, hm, hu, _, _⟩ := hok h data rfl
-      have hlen := unpackSdoSegmented_length _ _ hu
-      have hsub : Res.isPanic (subU16 cfg.mode h.header.length SEGMENT_HEADER_LEN) = false :=
-        subU16_noPanic _ _ _ (fun hc => by rw [hlen]; exact hP m hm hc)
       dsimp only
-      cases hs16 : subU16 cfg.mode h.header.length SEGMENT_HEADER_LEN with
-      | panic why => rw [hs16] at hsub; simp at hsub
-      | err e => exact ⟨rfl, hq⟩
-      | ok chunk0 =>
-        dsimp only
-        repeat' split
-        all_goals first
-          | exact ⟨rfl, hq⟩
-          | exact ih _ _ _ s' hq
+      repeat' split
+      all_goals first
+        | exact ⟨rfl, hq⟩
+        | exact ih _ _ _ s' hq
 
-theorem sdoRead_safe {σ : Type} (w : World σ) (cfg : Cfg) (P : DevInv σ) (hP : ∀ m, P.msg m → ReadOk cfg m) (hw : WGood P w) (fuel bufLen index : Nat)
+theorem sdoRead_safe {σ : Type} (w : World σ) (cfg : Cfg) (P : DevInv σ) (hw : WGood P w) (fuel bufLen index : Nat)
     (access : SubIndex) (s : St σ) (hs : QGood P s) :
     Safe P (sdoRead w cfg fuel bufLen index access s) := by
   unfold sdoRead
@@ -292,13 +266,13 @@ theorem sdoRead_safe {σ : Type} (w : World σ) (cfg : Cfg) (P : DevInv σ) (hP 
         · split
           · refine ⟨?_, hq⟩
             split <;> rfl
-          · exact segLoop_safe w cfg P hP hw _ _ _ _ s' hq
+          · exact segLoop_safe w cfg P hw _ _ _ _ s' hq
 
-theorem sdoReadT_safe {σ α : Type} (w : World σ) (cfg : Cfg) (P : DevInv σ) (hP : ∀ m, P.msg m → ReadOk cfg m) (hw : WGood P w) (fuel : Nat) (T : Dest α)
+theorem sdoReadT_safe {σ α : Type} (w : World σ) (cfg : Cfg) (P : DevInv σ) (hw : WGood P w) (fuel : Nat) (T : Dest α)
     (index : Nat) (access : SubIndex) (s : St σ) (hs : QGood P s) :
     Safe P (sdoReadT w cfg fuel T index access s) := by
   unfold sdoReadT
-  have h := sdoRead_safe w cfg P hP hw fuel T.bufLen index access s hs
+  have h := sdoRead_safe w cfg P hw fuel T.bufLen index access s hs
   generalize sdoRead w cfg fuel T.bufLen index access s = r at h
   obtain ⟨r1, s'⟩ := r
   obtain ⟨hnp, hq⟩ := h
@@ -332,7 +306,7 @@ theorem sdoReadExpedited_safe {σ : Type} (w : World σ) (cfg : Cfg) (P : DevInv
       split <;> rfl
     · exact ⟨rfl, hq⟩
 
-theorem readEach_safe {σ α : Type} (w : World σ) (cfg : Cfg) (P : DevInv σ) (hP : ∀ m, P.msg m → ReadOk cfg m) (hw : WGood P w) (fuel : Nat) (T : Dest α)
+theorem readEach_safe {σ α : Type} (w : World σ) (cfg : Cfg) (P : DevInv σ) (hw : WGood P w) (fuel : Nat) (T : Dest α)
     (index : Nat) : ∀ (n i : Nat) (s : St σ), QGood P s →
       Safe P (readEach w cfg fuel T index n i s) := by
   intro n
@@ -341,7 +315,7 @@ theorem readEach_safe {σ α : Type} (w : World σ) (cfg : Cfg) (P : DevInv σ) 
   | succ n ih =>
     intro i s hs
     unfold readEach
-    have h := sdoReadT_safe w cfg P hP hw fuel T index (.index i) s hs
+    have h := sdoReadT_safe w cfg P hw fuel T index (.index i) s hs
     generalize sdoReadT w cfg fuel T index (.index i) s = r at h
     obtain ⟨r1, s'⟩ := r
     obtain ⟨hnp, hq⟩ := h
@@ -359,11 +333,11 @@ theorem readEach_safe {σ α : Type} (w : World σ) (cfg : Cfg) (P : DevInv σ) 
       | panic why => simp at hnp2
       | ok vs => exact ⟨rfl, hq2⟩
 
-theorem sdoReadArray_safe {σ α : Type} (w : World σ) (cfg : Cfg) (P : DevInv σ) (hP : ∀ m, P.msg m → ReadOk cfg m) (hw : WGood P w) (fuel : Nat) (T : Dest α)
+theorem sdoReadArray_safe {σ α : Type} (w : World σ) (cfg : Cfg) (P : DevInv σ) (hw : WGood P w) (fuel : Nat) (T : Dest α)
     (maxEntries index : Nat) (s : St σ) (hs : QGood P s) :
     Safe P (sdoReadArray w cfg fuel T maxEntries index s) := by
   unfold sdoReadArray
-  have h := sdoReadT_safe w cfg P hP hw fuel destU8 index (.index 0) s hs
+  have h := sdoReadT_safe w cfg P hw fuel destU8 index (.index 0) s hs
   generalize sdoReadT w cfg fuel destU8 index (.index 0) s = r at h
   obtain ⟨r1, s'⟩ := r
   obtain ⟨hnp, hq⟩ := h
@@ -374,7 +348,7 @@ theorem sdoReadArray_safe {σ α : Type} (w : World σ) (cfg : Cfg) (P : DevInv 
     dsimp only
     split
     · exact ⟨rfl, hq⟩
-    · exact readEach_safe w cfg P hP hw fuel T index len 1 s' hq
+    · exact readEach_safe w cfg P hw fuel T index len 1 s' hq
 
 /-! ### Entry points: writes -/
 
